@@ -35,8 +35,10 @@ def write_tiff(path, data, dtype="float32", nodata=None, descriptions=None, geor
     if nodata is not None:
         profile["nodata"] = nodata
     if georef:
+        # georef = True, or an (x, y) offset of the origin (a second image of the same scene has its own footprint)
+        dx, dy = georef if isinstance(georef, (tuple, list)) else (0.0, 0.0)
         profile["crs"] = "EPSG:32631"
-        profile["transform"] = Affine(0.5, 0.0, 300000.0, 0.0, -0.5, 4800000.0)
+        profile["transform"] = Affine(0.5, 0.0, 300000.0 + dx, 0.0, -0.5, 4800000.0 + dy)
     with warnings.catch_warnings():
         warnings.simplefilter("ignore")
         with rasterio.open(path, "w", **profile) as dst:
